@@ -97,9 +97,14 @@ fn main() {
     {
         use pdatastructs::hash_utils::BuildHasherSeeded;
         let seeds = if thorough { 1500usize } else { 300 };
-        let cells = [(0.1f64, 0.05f64), (0.05, 0.05), (0.2, 0.05), (0.043, 0.05), (0.16, 0.05), (0.01, 0.02), (0.3, 0.14), (0.021, 0.05)];
-        let rows = par_map(&cells.to_vec(), n_threads(), |&(eps, delta)| {
-            let heavy = (1.0 / eps).ceil() as u64 - 1;
+        // (eps, delta, heavy hitters (0 = ceil(1/eps) - 1, the worst case), unseen elements queried per seed). The last three cells have
+        // d = 5, 6 and 8 rows: every row beyond the fourth must still cut the failure fraction (a hashing scheme whose rows repeat
+        // from some row on keeps w() and d() but loses the guarantee); their heavy-hitter count is chosen so that the unchanged
+        // tree sits at about half of delta, the 1/w^2 double-hashing floor included
+        let cells = [(0.1f64, 0.05f64, 0u64, 50u64), (0.05, 0.05, 0, 50), (0.2, 0.05, 0, 50), (0.043, 0.05, 0, 50), (0.16, 0.05, 0, 50), (0.01, 0.02, 0, 50), (0.3, 0.14, 0, 50), (0.021, 0.05, 0, 50),
+            (0.005, 0.007, 195, 1000), (0.002, 0.0025, 430, 1000), (0.001, 0.0004, 880, 1000)];
+        let rows = par_map(&cells.to_vec(), n_threads(), |&(eps, delta, heavy_opt, n_queries)| {
+            let heavy = if heavy_opt > 0 { heavy_opt } else { (1.0 / eps).ceil() as u64 - 1 };
             let (mut bad, mut total, mut under) = (0u64, 0u64, 0u64);
             let mut shape = (0usize, 0usize);
             let r = mccore::panics::catch(|| {
@@ -110,7 +115,7 @@ fn main() {
                         s.add_n(&(1_000_000 + h * 7919), &100);
                     }
                     let limit = eps * (heavy * 100) as f64;
-                    for q in 0..50u64 {
+                    for q in 0..n_queries {
                         total += 1;
                         let est = s.query_point(&(q * 104729 + 17 + seed as u64 * 1_000_003));
                         if est as f64 > limit {
@@ -124,14 +129,14 @@ fn main() {
                     }
                 }
             });
-            (eps, delta, shape, bad, total, under, r.err())
+            (eps, delta, shape, bad, total, under, r.err(), heavy)
         });
         let mut table = vec![];
-        for (eps, delta, (w, d), bad, total, under, err) in rows {
+        for (eps, delta, (w, d), bad, total, under, err, heavy) in rows {
             let frac = if total > 0 { bad as f64 / total as f64 } else { 0.0 };
             let name = format!("cms real-hasher family eps={} delta={}", eps, delta);
             let replay = json!({"structure": "CountMinSketch", "constructor": "with_point_query_properties_and_hasher", "epsilon": eps, "delta": delta, "w": w, "d": d, "hashers": format!("BuildHasherSeeded::new(0..{})", seeds),
-                "stream": "ceil(1/eps)-1 heavy hitters 1000000 + 7919 h, weight 100 each", "queries": "50 unseen elements per seed: 104729 q + 17 + 1000003 seed", "bad_pairs": bad, "pairs": total, "fraction": frac});
+                "stream": "heavy hitters 1000000 + 7919 h, weight 100 each (see real_hasher_family for their number)", "queries": "unseen elements per seed: 104729 q + 17 + 1000003 seed", "bad_pairs": bad, "pairs": total, "fraction": frac});
             if let Some(p) = err {
                 run.violation(Viol { property: "C08".into(), signature: format!("{} panics", name), message: format!("panicked: {}", p), replay: replay.clone() });
             }
@@ -141,7 +146,7 @@ fn main() {
             if frac > delta {
                 run.violation(Viol { property: "C08".into(), signature: format!("{} fraction above delta", name), message: format!("w={} d={}: {} of {} (seed, element) pairs = {:.4} have an overestimate above eps*N; delta = {}", w, d, bad, total, frac, delta), replay });
             }
-            table.push(json!({"eps": eps, "delta": delta, "w": w, "d": d, "pairs": total, "fraction_above_eps_N": (frac * 1e5).round() / 1e5}));
+            table.push(json!({"eps": eps, "delta": delta, "w": w, "d": d, "heavy_hitters": heavy, "pairs": total, "fraction_above_eps_N": (frac * 1e5).round() / 1e5}));
         }
         run.ev.set("real_hasher_family", json!(table));
         if run.n_violations() > 0 {
